@@ -12,7 +12,7 @@ TRUSTED = common.TRUSTED_COMMON + ["deterministic scheduler of the harness: real
                                    "every raw lock operation and data access is a scheduling point"]
 ASSUMPTIONS = common.ASSUME_COMMON + ["grant policies of the auditing RwLock: reader-preferring and writer-preferring "
                                       "(readers refused while a writer waits); real parking_lot queues and OS scheduling are outside the model"]
-RULE = 'programs of 2-4 threads x 1-3 acquisitions over a random universe (2-5 leaves, every collection kind, container, nesting <= 2, poisonable wrappers, shared leaves listed in independent orders), read and write modes, guard / try / scoped / scoped-try flavours, both RwLock grant policies; schedules: random and bursty thread sequences at raw-operation granularity, completed lowest-id-first; some programs panic with a live guard or inside a closure; observation = per-thread raw operations, returns, final status; non-trivial = some thread had to wait; distinct = scenario text'
+RULE = 'programs of 2-4 threads x 1-3 acquisitions over a random universe (2-5 leaves, every collection kind, container, nesting <= 2, poisonable wrappers, shared leaves listed in independent orders), read and write modes, guard / try / scoped / scoped-try flavours, both RwLock grant policies; schedules: random and bursty thread sequences at raw-operation granularity, completed lowest-id-first; some programs panic with a live guard or inside a closure; a third of the programs make thread 0 acquire a retrying collection while the others use the same locks singly and through a sorting collection; 40% of the runs use priority scheduling with 0-3 demotion points; observation = per-thread raw operations, returns, final status, and the lock-order graph of the execution (must be acyclic); non-trivial = some thread had to wait; distinct = scenario text'
 EXHAUSTIVE = {"quick": False, "thorough": False}
 classify = bprop.classify
 signature = bprop.signature
@@ -28,3 +28,7 @@ def coq_expr(s, r):
 
 def nontrivial(s, r):
     return bprop.nontrivial(PID, s, r)
+
+
+def deepen(s, rng):
+    return bprop.deepen(PID, s, rng)
